@@ -179,3 +179,54 @@ def ref_unescape(text):
             return chr(int(t[1:]))
         return chr(name2codepoint[t]) if t in name2codepoint else m.group(0)
     return re.sub(r"&(#[0-9]+|#[xX][0-9a-fA-F]+|[A-Za-z][A-Za-z0-9]*);", one, text)
+
+
+def compile_error(text, filename):
+    """(exception class name, lineno, pos) from the real lexer with Python parsing stubbed as in the symbolic run"""
+    import types
+    from mako import lexer, parsetree, exceptions
+
+    class StubCode:
+        def __init__(self, code, **kw):
+            self.code = code
+            self.declared_identifiers = set()
+            self.undeclared_identifiers = set()
+            self.args = []
+
+    saved = parsetree.ast
+    parsetree.ast = types.SimpleNamespace(PythonCode=StubCode, ArgumentList=StubCode, PythonFragment=StubCode,
+                                          FunctionDecl=StubCode, FunctionArgs=StubCode)
+    try:
+        try:
+            lexer.Lexer(text, filename=filename).parse()
+        except (exceptions.SyntaxException, exceptions.CompileException) as e:
+            return (type(e).__name__, e.lineno, e.pos)
+        return (None, None, None)
+    finally:
+        parsetree.ast = saved
+
+
+def error_display(text, filename):
+    """what html_error_template shows for the compile error of `text`:
+    (lineno, list of displayed source lines, index of the line for lineno in that list) or None if it compiles"""
+    import sys
+    from mako import exceptions
+    from mako.template import Template
+    try:
+        Template(text, filename=filename)
+        return None
+    except (exceptions.SyntaxException, exceptions.CompileException) as e:
+        err = e
+        tb = sys.exc_info()[2]
+    saved = (exceptions.syntax_highlight, exceptions.pygments_html_formatter)
+    exceptions.syntax_highlight = lambda filename="", language=None: (lambda s: "@@B@@" + s + "@@E@@")
+    exceptions.pygments_html_formatter = None
+    try:
+        out = exceptions.html_error_template().render_unicode(error=err, traceback=tb, full=False, css=False)
+    finally:
+        exceptions.syntax_highlight, exceptions.pygments_html_formatter = saved
+    sample = out.split('<div class="stacktrace">')[0]
+    import re
+    shown = re.findall("@@B@@(.*?)@@E@@", sample, re.S)
+    line = err.lineno
+    return (line, shown, (line - 1) - max(0, line - 4))
